@@ -4,6 +4,8 @@ from __future__ import annotations
 import itertools
 import string
 
+import os
+
 from hypothesis import strategies as st
 
 from pbt.core import harness as H
@@ -234,10 +236,19 @@ def check_case(case):
                 out.append(("valid-id-rejected-after-garbage-input", f"after {s_!r}: {fn.__name__}({good!r}) = {ok!r}"))
         if utils.cusip_checksum("08467010") != "8" or utils.sedol_checksum("B0YBKJ") != "7" or utils.isin_checksum("US037833100") != "5":
             out.append(("checksum-wrong-after-garbage-input", f"after {s_!r}"))
+    elif kind == "order":
+        return order_case(case)
     elif kind == "isin-prefix":
         # unknown prefix: whatever check character, never validates
         stem = case["stem"]
         b = base + stem
+        for conv, good in ((utils.sedol2isin, "B0YBKJ7"), (utils.cusip2isin, "037833100")):
+            try:
+                r = conv(good, base)
+            except Exception:
+                continue
+            if not _never_validates(utils.validate_isin, r):
+                out.append(("isin-unknown-prefix-accepted", f"{conv.__name__}({good!r}, {base!r}) -> {r!r}, which validates"))
         for c in ALNUM:
             if not _never_validates(utils.validate_isin, b + c):
                 out.append(("isin-unknown-prefix-accepted", f"{b + c!r}"))
@@ -387,7 +398,58 @@ def _prefix_worker(job):
     return s
 
 
+ORDER_PROBES = {
+    "cusip": "print(utils.cusip_checksum('0846701*'), utils.cusip_checksum('08467010'), utils.validate_cusip('0846701*' + utils.cusip_checksum('0846701*')), utils.validate_cusip('084670108'))",
+    "sedol": "print(utils.sedol_checksum('B0YBKJ'), utils.sedol2isin('B0YBKJ7'))",
+    "isin": "print(utils.isin_checksum('US037833100'), utils.validate_isin('US0378331005'), utils.validate_isin('ZZ0378331005'))",
+    "garbage": "print([f(x) if False else None for f in () for x in ()]); [__import__('contextlib').suppress(Exception).__enter__() for _ in ()]",
+}
+
+
+def order_case(case):
+    """The same calls in every order, each order in a fresh interpreter: what one routine answers does not depend on which
+    routine ran first."""
+    import subprocess
+    import sys
+
+    def script(order):
+        lines = ["from ofxtools import utils"]
+        for nm in order:
+            lines.append("try:\n    " + ORDER_PROBES[nm] + "\nexcept Exception as e:\n    print('raised', type(e).__name__)")
+        return "\n".join(lines)
+
+    def run_(order):
+        p = subprocess.run([sys.executable, "-c", script(order)], capture_output=True, text=True, env=dict(os.environ, PYTHONPATH=H.REPO), timeout=120)
+        return dict(zip(order, p.stdout.strip().splitlines()))
+
+    ref = {nm: run_([nm]).get(nm) for nm in case["order"]}
+    got = run_(case["order"])
+    out = []
+    for nm in case["order"]:
+        if got.get(nm) != ref[nm]:
+            out.append((f"result-depends-on-call-order/{nm}", f"after {case['order'][: case['order'].index(nm)]}: {got.get(nm)!r}, alone in a fresh interpreter: {ref[nm]!r}"))
+    expect = {"cusip": "9 8 True True", "sedol": "7 GB00B0YBKJ77", "isin": "5 True False"}
+    for nm, want in expect.items():
+        if nm in ref and ref[nm] != want:
+            out.append((f"known-answer-wrong/{nm}", f"{ref[nm]!r}, expected {want!r}"))
+    return out
+
+
+def _order_worker(orders):
+    H.setup_path()
+    s = H.Stats()
+    for order in orders:
+        case = {"kind": "order", "order": list(order)}
+        s.case(case, nontrivial=True, labels=["call order in a fresh interpreter"])
+        for k, d in order_case(case):
+            s.fail(k, case, d)
+    return s
+
+
 def run(ctx):
+    import itertools
+
+    ctx.pmap(_order_worker, [[o] for o in itertools.permutations(["cusip", "sedol", "isin"])], ambient=False)
     jobs = []
     if ctx.thorough:
         # all 10^8 digit CUSIP bases, all 10^6 SEDOL digit bases, ISIN: 10^6 per sampled prefix
